@@ -27,6 +27,9 @@ SUBS_MENU = [
     [{'only': ['on_queued', 'on_done']}, {'only': ['on_progress']}, {}],
     [{}, {'raise_on_done': True}, {}],
     [{'raise_on_done': True}, {}],
+    [{'flavor': 'inherited'}, {}],
+    [{}, {'flavor': 'mixin'}],
+    [{'flavor': 'mixin'}, {'flavor': 'inherited', 'raise_on_done': True}, {}],
     [{'reenter': {'on_done': ['result_other_thread']}}, {}],
     [{}, {'only': ['on_done'], 'reenter': {'on_done': ['result_other_thread']}}],
     [{'raise_on_done': True}, {'reenter': {'on_done': ['result_other_thread', 'done']}}],
